@@ -146,11 +146,13 @@ fn searched_fields(d: &DateTime) -> bool {
     d.year == Y && d.month == 1 && d.month_day == 1 && d.hour == 0 && d.minute == 0 && d.second == 0 && d.nanoseconds == NS
 }
 
-fn search_body<const N: usize, const L: usize, const BUF: usize>(c05: bool, c06: bool) {
+fn search_body<const N: usize, const L: usize, const BUF: usize, const R: bool>(c05: bool, c06: bool) {
     let c: i64 = kani::any();
     kani::assume(MIN_T <= c && c <= MAX_T + 1);
     CIVIL.store(c, AO::Relaxed);
     let (types, tr, n, ls, m, rule) = any_zone_parts::<N>();
+    // R = false: zones without a trailing rule only (constant None, so that the rule arms are pruned)
+    let rule: Option<TransitionRule> = if R { rule } else { None };
     let lsr: &[LeapSecond] = if L == 0 { &[] } else { &ls[..m] };
     let zone = match TimeZoneRef::new(&tr[..n], &types, lsr, &rule) {
         Ok(z) => z,
@@ -299,7 +301,7 @@ fn search_body<const N: usize, const L: usize, const BUF: usize>(c05: bool, c06:
 }
 
 macro_rules! search_harness {
-    ($name:ident, $n:expr, $leaps:expr, $c05:expr, $c06:expr, $unwind:expr) => {
+    ($name:ident, $n:expr, $leaps:expr, $c05:expr, $c06:expr, $unwind:expr, $rule:expr) => {
         #[kani::proof]
         #[kani::unwind($unwind)]
         #[kani::stub(crate::datetime::unix_time, stub_unix_time)]
@@ -307,18 +309,20 @@ macro_rules! search_harness {
         #[kani::stub(crate::timezone::RuleDay::unix_time, stub_rule_unix_time)]
         #[kani::stub(crate::timezone::AlternateTime::find_local_time_type, stub_alt_find)]
         fn $name() {
-            search_body::<$n, $leaps, { $n + 2 }>($c05, $c06);
+            search_body::<$n, $leaps, { $n + 2 }, $rule>($c05, $c06);
         }
     };
 }
-search_harness!(c05_table_n1, 1, 0, true, false, 5);
-search_harness!(c05_table_n2, 2, 0, true, false, 6);
-search_harness!(c05_table_n3, 3, 0, true, false, 7);
-search_harness!(c05_table_leap1_n2, 2, 1, true, false, 6);
-search_harness!(c06_table_n1, 1, 0, false, true, 5);
-search_harness!(c06_table_n2, 2, 0, false, true, 6);
-search_harness!(c06_table_n3, 3, 0, false, true, 7);
-search_harness!(c06_table_leap1_n2, 2, 1, false, true, 6);
+search_harness!(c05_table_n1, 1, 0, true, false, 5, true);
+search_harness!(c05_table_n2, 2, 0, true, false, 6, true);
+search_harness!(c05_table_n3, 3, 0, true, false, 7, true);
+search_harness!(c05_table_leap1_n2, 2, 1, true, false, 6, true);
+search_harness!(c06_table_n1, 1, 0, false, true, 5, true);
+search_harness!(c06_table_n2, 2, 0, false, true, 6, true);
+search_harness!(c06_table_n3, 3, 0, false, true, 7, true);
+search_harness!(c06_table_leap1_n2, 2, 1, false, true, 6, true);
+search_harness!(c05_table_leap1_norule_n2, 2, 1, true, false, 6, false);
+search_harness!(c06_table_leap1_norule_n2, 2, 1, false, true, 6, false);
 
 // ------------------------------------------------------------------ C17
 fn same_entry(a: &Option<FoundDateTimeKind>, b: &Option<FoundDateTimeKind>) -> bool {
